@@ -47,8 +47,12 @@ type MCase struct {
 	Steps []MStep `json:"steps"`
 	Panic int     `json:"panic"` // source whose teardown panics (0 = none)
 	Tail  string  `json:"tail"`  // downstream stage placed after the operator: "" / "none", "Take1", "Throw1"
-	Sync  int     `json:"sync"`  // source that ends synchronously inside its subscription (0 = none)
-	Raw   string  `json:"-"`
+	ISync struct {
+		J int    `json:"j"`
+		K string `json:"k"`
+	} `json:"isync"` // HO.tla: inner source J ends (K) synchronously inside its subscription (J = 0: none)
+	Sync int    `json:"sync"` // source that ends synchronously inside its subscription (0 = none)
+	Raw  string `json:"-"`
 }
 
 func ReadMCases(path string, fn func(i int, c *MCase)) (int, error) {
